@@ -44,6 +44,10 @@ pub struct CoDevice {
     /// Queues on which the device suppresses available-buffer notifications (flag form without
     /// event index, a far-away event index with it) and which it polls instead.
     pub suppressed: Vec<u16>,
+    /// A device need not look at notifications it receives before DRIVER_OK (it is not live
+    /// yet): with this set, they are counted and otherwise ignored.
+    pub ignore_early_notifications: bool,
+    pub ignored_notifications: u32,
 }
 
 pub type CoRc = Rc<RefCell<CoDevice>>;
@@ -64,6 +68,8 @@ impl CoDevice {
             poll_on_spin: true,
             interrupts: 0,
             suppressed: vec![],
+            ignore_early_notifications: false,
+            ignored_notifications: 0,
         }))
     }
 
@@ -187,6 +193,10 @@ pub fn install(co: &CoRc) {
     crate::dev::set_notify_handler(Some(Box::new(move |q| {
         let mut c = c.borrow_mut();
         c.notifies += 1;
+        if c.ignore_early_notifications && c.dev.borrow().status & crate::dev::ST_DRIVER_OK == 0 {
+            c.ignored_notifications += 1;
+            return;
+        }
         c.service(q);
     })));
     let c = co.clone();
